@@ -12,7 +12,11 @@ use std::collections::BTreeMap;
 const SPECIFIERS: &str = "aAbBCdDEfgGhHiIjJlLmMnNopPqrsStTuUvVwWyY";
 const MARK: char = '\u{1}';
 
-fn split_words(line: &str) -> Result<Vec<String>, String> {
+/// A word is a byte string: `\xHH` and octal escapes produce one raw byte, `\u`/`\U` the UTF-8
+/// encoding of the code point (systemd's cunescape), everything else its own UTF-8 bytes.
+fn push_char(w: &mut Vec<u8>, c: char) { let mut b = [0u8; 4]; w.extend_from_slice(c.encode_utf8(&mut b).as_bytes()); }
+
+fn split_words(line: &str) -> Result<Vec<Vec<u8>>, String> {
   let cs: Vec<char> = line.chars().collect();
   let ws = |c: char| c == ' ' || c == '\t' || c == '\n' || c == '\r';
   let mut i = 0;
@@ -20,7 +24,7 @@ fn split_words(line: &str) -> Result<Vec<String>, String> {
   loop {
     while i < cs.len() && ws(cs[i]) { i += 1; }
     if i >= cs.len() { break; }
-    let mut w = String::new();
+    let mut w: Vec<u8> = vec![];
     let mut quote: Option<char> = None;
     loop {
       if i >= cs.len() { if quote.is_some() { return Err("unterminated quote".into()); } break; }
@@ -35,24 +39,24 @@ fn split_words(line: &str) -> Result<Vec<String>, String> {
         i += 1;
         if i >= cs.len() { return Err("trailing backslash".into()); }
         let e = cs[i];
-        let simple = match e { 'a' => Some('\x07'), 'b' => Some('\x08'), 'f' => Some('\x0c'), 'n' => Some('\n'), 'r' => Some('\r'), 't' => Some('\t'), 'v' => Some('\x0b'), '\\' => Some('\\'), '"' => Some('"'), '\'' => Some('\''), 's' => Some(' '), _ => None };
-        if let Some(ch) = simple { w.push(ch); i += 1; continue; }
+        let simple = match e { 'a' => Some(0x07u8), 'b' => Some(0x08), 'f' => Some(0x0c), 'n' => Some(b'\n'), 'r' => Some(b'\r'), 't' => Some(b'\t'), 'v' => Some(0x0b), '\\' => Some(b'\\'), '"' => Some(b'"'), '\'' => Some(b'\''), 's' => Some(b' '), _ => None };
+        if let Some(b) = simple { w.push(b); i += 1; continue; }
         let take_hex = |n: usize| -> Option<u32> { let mut v = 0u32; for j in 1..=n { v = v * 16 + cs.get(i + j)?.to_digit(16)?; } Some(v) };
         match e {
-          'x' => { let v = take_hex(2).ok_or("bad \\x escape")?; if v == 0 { return Err("\\x00".into()); } w.push(char::from_u32(v).ok_or("bad char")?); i += 3; }
-          'u' => { let v = take_hex(4).ok_or("bad \\u escape")?; if v == 0 { return Err("\\u0000".into()); } w.push(char::from_u32(v).ok_or("bad unichar")?); i += 5; }
-          'U' => { let v = take_hex(8).ok_or("bad \\U escape")?; if v == 0 { return Err("\\U00000000".into()); } w.push(char::from_u32(v).ok_or("bad unichar")?); i += 9; }
+          'x' => { let v = take_hex(2).ok_or("bad \\x escape")?; if v == 0 { return Err("\\x00".into()); } w.push(v as u8); i += 3; }
+          'u' => { let v = take_hex(4).ok_or("bad \\u escape")?; if v == 0 { return Err("\\u0000".into()); } push_char(&mut w, char::from_u32(v).ok_or("bad unichar")?); i += 5; }
+          'U' => { let v = take_hex(8).ok_or("bad \\U escape")?; if v == 0 { return Err("\\U00000000".into()); } push_char(&mut w, char::from_u32(v).ok_or("bad unichar")?); i += 9; }
           '0'..='7' => {
             let mut v = 0u32;
             for j in 0..3 { v = v * 8 + cs.get(i + j).ok_or("bad octal escape")?.to_digit(8).ok_or("bad octal escape")?; }
             if v == 0 || v > 255 { return Err("bad octal escape".into()); }
-            w.push(char::from_u32(v).unwrap()); i += 3;
+            w.push(v as u8); i += 3;
           }
           _ => return Err(format!("unknown escape \\{}", e)),
         }
         continue;
       }
-      w.push(c);
+      push_char(&mut w, c);
       i += 1;
     }
     words.push(w);
@@ -60,50 +64,50 @@ fn split_words(line: &str) -> Result<Vec<String>, String> {
   Ok(words)
 }
 
-fn expand_specifiers(w: &str) -> String {
-  let cs: Vec<char> = w.chars().collect();
-  let mut r = String::new();
+const MARKB: u8 = 1;
+
+fn expand_specifiers(w: &[u8]) -> Vec<u8> {
+  let mut r = vec![];
   let mut i = 0;
-  while i < cs.len() {
-    if cs[i] == '%' && i + 1 < cs.len() {
-      let n = cs[i + 1];
-      if n == '%' { r.push('%'); i += 2; continue; }
-      if SPECIFIERS.contains(n) { r.push(MARK); r.push_str("SPEC"); r.push(n); r.push(MARK); i += 2; continue; }
-      r.push('%'); r.push(n); i += 2; continue;
+  while i < w.len() {
+    if w[i] == b'%' && i + 1 < w.len() {
+      let n = w[i + 1];
+      if n == b'%' { r.push(b'%'); i += 2; continue; }
+      if SPECIFIERS.as_bytes().contains(&n) { r.push(MARKB); r.extend_from_slice(b"SPEC"); r.push(n); r.push(MARKB); i += 2; continue; }
+      r.push(b'%'); r.push(n); i += 2; continue;
     }
-    r.push(cs[i]);
+    r.push(w[i]);
     i += 1;
   }
   r
 }
 
-fn is_name_char(c: char) -> bool { c.is_ascii_alphanumeric() || c == '_' }
+fn is_name_char(c: u8) -> bool { c.is_ascii_alphanumeric() || c == b'_' }
 
-fn expand_env(w: &str) -> Vec<String> {
-  let cs: Vec<char> = w.chars().collect();
+fn expand_env(w: &[u8]) -> Vec<Vec<u8>> {
   // a word that is exactly $NAME is replaced by the (split) value of the variable
-  if cs.len() >= 2 && cs[0] == '$' && cs[1] != '{' && cs[1] != '$' && cs[1..].iter().all(|c| is_name_char(*c)) { return vec![format!("{}ENVWORD{}", MARK, MARK)]; }
-  let mut r = String::new();
+  if w.len() >= 2 && w[0] == b'$' && w[1] != b'{' && w[1] != b'$' && w[1..].iter().all(|c| is_name_char(*c)) { return vec![vec![MARKB, b'E', b'N', b'V', b'W', MARKB]]; }
+  let mut r = vec![];
   let mut i = 0;
-  while i < cs.len() {
-    if cs[i] == '$' && i + 1 < cs.len() {
-      let n = cs[i + 1];
-      if n == '$' { r.push('$'); i += 2; continue; }
-      if n == '{' {
-        if let Some(j) = cs[i + 2..].iter().position(|c| *c == '}') { r.push(MARK); r.push_str("ENV"); r.push(MARK); i = i + 2 + j + 1; continue; }
+  while i < w.len() {
+    if w[i] == b'$' && i + 1 < w.len() {
+      let n = w[i + 1];
+      if n == b'$' { r.push(b'$'); i += 2; continue; }
+      if n == b'{' {
+        if let Some(j) = w[i + 2..].iter().position(|c| *c == b'}') { r.push(MARKB); r.extend_from_slice(b"ENV"); r.push(MARKB); i = i + 2 + j + 1; continue; }
       } else if is_name_char(n) {
         let mut j = i + 1;
-        while j < cs.len() && is_name_char(cs[j]) { j += 1; }
-        r.push(MARK); r.push_str("ENV"); r.push(MARK); i = j; continue;
+        while j < w.len() && is_name_char(w[j]) { j += 1; }
+        r.push(MARKB); r.extend_from_slice(b"ENV"); r.push(MARKB); i = j; continue;
       }
     }
-    r.push(cs[i]);
+    r.push(w[i]);
     i += 1;
   }
   vec![r]
 }
 
-pub fn read_execstart(unit_text: &str) -> Result<Vec<String>, String> {
+pub fn read_execstart(unit_text: &str) -> Result<Vec<Vec<u8>>, String> {
   let mut lines = unit_text.split('\n');
   let mut found: Option<&str> = None;
   let mut after = vec![];
@@ -118,13 +122,15 @@ pub fn read_execstart(unit_text: &str) -> Result<Vec<String>, String> {
   Ok(out)
 }
 
-fn expected_argv(pats: &[&str]) -> Vec<String> {
-  let mut exp: Vec<String> = ["/usr/bin/totalmapper", "remap", "--verbose", "--layout-file", "/etc/totalmapper.json", "--only-if-keyboard"].iter().map(|s| s.to_string()).collect();
-  for p in pats { exp.push("--exclude".into()); exp.push(p.to_string()); }
-  exp.push("--dev-file".into());
-  exp.push(format!("/{}SPECI{}", MARK, MARK));
+fn expected_argv(pats: &[&str]) -> Vec<Vec<u8>> {
+  let mut exp: Vec<Vec<u8>> = ["/usr/bin/totalmapper", "remap", "--verbose", "--layout-file", "/etc/totalmapper.json", "--only-if-keyboard"].iter().map(|s| s.as_bytes().to_vec()).collect();
+  for p in pats { exp.push(b"--exclude".to_vec()); exp.push(p.as_bytes().to_vec()); }
+  exp.push(b"--dev-file".to_vec());
+  exp.push(format!("/{}SPECI{}", MARK, MARK).into_bytes());
   exp
 }
+
+fn show(argv: &[Vec<u8>]) -> String { format!("{:?}", argv.iter().map(|w| String::from_utf8(w.clone()).unwrap_or_else(|_| format!("<bytes {}>", w.iter().map(|b| format!("{:02x}", b)).collect::<String>()))).collect::<Vec<_>>()) }
 
 /// Ok(escaping_was_needed) or Err((clause, detail))
 fn check_patterns(pats: &[&str]) -> Result<bool, (&'static str, String)> {
@@ -134,7 +140,7 @@ fn check_patterns(pats: &[&str]) -> Result<bool, (&'static str, String)> {
   let exp = expected_argv(pats);
   if argv != exp {
     let clause = if argv.len() == exp.len() && argv.iter().zip(exp.iter()).enumerate().all(|(i, (a, b))| a == b || (i >= 7 && i < 6 + 2 * pats.len() && (i - 6) % 2 == 1)) { "pattern-changed" } else { "argument-vector-damaged" };
-    return Err((clause, format!("read back {:?} expected {:?}; line: {}", argv, exp, line)));
+    return Err((clause, format!("read back {} expected {}; line: {}", show(&argv), show(&exp), line)));
   }
   let naive = format!("--only-if-keyboard {} --dev-file", pats.iter().map(|p| format!("--exclude {}", p)).collect::<Vec<_>>().join(" "));
   Ok(!line.contains(&naive))
@@ -265,7 +271,7 @@ pub fn replay_artefact(v: &Value) -> i32 {
   let text = crate::udev_utils::verif_build_service_text(&refs);
   println!("patterns {:?}", pats);
   println!("{}", text.split('\n').find(|l| l.starts_with("ExecStart=")).unwrap_or(""));
-  match read_execstart(&text) { Ok(a) => println!("reference reader: {:?}", a), Err(e) => println!("reference reader rejects the line: {}", e) }
-  println!("expected:         {:?}", expected_argv(&refs));
+  match read_execstart(&text) { Ok(a) => println!("reference reader: {}", show(&a)), Err(e) => println!("reference reader rejects the line: {}", e) }
+  println!("expected:         {}", show(&expected_argv(&refs)));
   0
 }
